@@ -228,6 +228,7 @@ def run_case(case, ctx):
         with fp():
             r = agg.get_DensityMatrix(condition_type="thermal", temperature=T)
         d = site_rep(qr, r)
+    d_thermal_first = d.copy()
     if validity(ctx, d, det):
         boltzmann_check(ctx, numpy.real(numpy.diag(d)), numpy.diag(H), T, det)
         ctx.check("boltzmann-ratios", float(numpy.max(numpy.abs(d - numpy.diag(numpy.diag(d))))), 1e-14, dict(det, what="diagonal state"))
@@ -321,5 +322,30 @@ def run_case(case, ctx):
             r = agg.get_excited_density_matrix()
         d = site_rep(qr, r)
     validity(ctx, d, dict(base, condition="get_excited_density_matrix"), thermal=False)
+    # the same aggregate asked for other temperatures, then for the first one again: every answer belongs to the temperature requested
+    T2 = float("%.4g" % (2.0 * T + 25.0))
+    for Tq, label in ((T2, "another temperature on the same aggregate"), (T, "the first temperature again")):
+        detq = dict(base, condition="thermal", T=Tq, history=label)
+        with ctx.lib("get_DensityMatrix(thermal) " + label, mechanism=None):
+            with fp():
+                rq = agg.get_DensityMatrix(condition_type="thermal", temperature=Tq)
+            dq = site_rep(qr, rq)
+        if validity(ctx, dq, detq):
+            boltzmann_check(ctx, numpy.real(numpy.diag(dq)), numpy.diag(H), Tq, detq)
+        detw = dict(base, condition="thermal_excited_state", limit="weak_coupling", T=Tq, history=label)
+        with ctx.lib("get_DensityMatrix(thermal_excited_state) " + label, mechanism=None):
+            with fp():
+                rq = agg.get_DensityMatrix(condition_type="thermal_excited_state", relaxation_theory_limit="weak_coupling", temperature=Tq)
+            dq2 = site_rep(qr, rq)
+        if validity(ctx, dq2, detw):
+            de = S.T @ dq2 @ S
+            pe = numpy.real(numpy.diag(de))
+            exc = [k for k in range(dim) if float(numpy.sum(S[nb0:, k] ** 2)) > 0.5]
+            if not (len(exc) >= 2 and float(numpy.min(numpy.diff(numpy.sort(w[exc])))) < 1e-9 * max(1.0, abs(w[exc][0]))):
+                boltzmann_check(ctx, pe[exc], w[exc], Tq, detw)
+        if Tq == T:
+            # (in-place basis round trips of the Hamiltonian in between leave rounding noise in its data)
+            ctx.check("boltzmann-ratios", float(numpy.max(numpy.abs(dq - d_thermal_first))), 1e-10, dict(detq, what="same request repeated after other requests"))
+            ctx.check("boltzmann-ratios", float(numpy.max(numpy.abs(dq2 - res["outside"]))), 1e-10, dict(detw, what="same request repeated after other requests"))
     ctx.key(("agg", N, T, case["with_bath"], case["mode"] is not None, tuple(desc["E"])))
     ctx.nontrivial(nontriv)
